@@ -10,6 +10,7 @@
    watchdog, once sequentially in a fresh process; every thread's results must be identical.
    Data races on the unsafe Arc::as_ptr dereference, lock poisoning and deadlocks can only be
    OBSERVED this way, they are not proved."""
+import subprocess, shutil
 import json, os
 from concurrent.futures import ThreadPoolExecutor
 from common import *
@@ -261,11 +262,50 @@ class C14:
     def regen(self, out):
         c13.regen_facts(out, with_lock=True)
 
+    # ------------------------------------------------------------------------------------------
+    # observed part under Miri: data races / undefined behaviour on the executed schedules
+    MIRI_SEEDS = {'quick': [1], 'thorough': [1, 2, 3, 4, 5, 6, 7, 8]}
+
+    def miri_stage(self, seeds, rdir, out, nthreads=4):
+        mdir = os.path.join(ROOT, 'harness_miri')
+        lock = os.path.join(REPO, 'Cargo.lock')
+        if os.path.exists(lock):
+            shutil.copyfile(lock, os.path.join(mdir, 'Cargo.lock'))
+        runs = []
+        for sd in seeds:
+            env = dict(os.environ, MIRIFLAGS='-Zmiri-seed=%d' % sd, CARGO_NET_OFFLINE='true')
+            try:
+                p = subprocess.run(['cargo', '+nightly', 'miri', 'run', '--offline', '--', str(nthreads)], cwd=mdir, env=env,
+                                   stdout=subprocess.PIPE, stderr=subprocess.STDOUT, timeout=1500)
+                rc, log = p.returncode, p.stdout.decode('utf-8', 'replace')
+            except subprocess.TimeoutExpired:
+                rc, log = 124, 'timeout (deadlock under Miri?)'
+            except FileNotFoundError:
+                out.notes.append('cargo not found: the Miri stage did not run')
+                return runs
+            runs.append({'seed': sd, 'rc': rc})
+            if rc == 0:
+                continue
+            if 'Undefined Behavior' in log or 'Data race' in log or 'DIFF thread' in log or 'PANIC thread' in log or rc == 124:
+                what = ('Miri reports undefined behaviour / a data race' if ('Undefined Behavior' in log or 'Data race' in log)
+                        else 'a thread observed other results than the sequential run, or panicked, under Miri' if rc != 124
+                        else 'the Miri run did not terminate (deadlock?)')
+                out.violations.append({'property': 'C14', 'kind': 'miri', 'what': what + ' (harness_miri, -Zmiri-seed=%d, %d threads)' % (sd, nthreads),
+                                       'miri_seed': sd, 'threads': nthreads, 'report': log[-4000:]})
+            else:
+                out.broken.append({'what': 'the Miri harness (harness_miri) does not build or run against /repo', 'detail': log[-3000:]})
+            break
+        return runs
+
     def explore(self, rng, tier, rdir, out, replay=None):
+        self.miri_runs = []
         if replay:
             payload = json.load(open(replay))
+            if payload.get('kind') == 'miri':
+                self.miri_runs = self.miri_stage([payload['miri_seed']], rdir, out, payload.get('threads', 4))
             scheds = [payload['schedule']] * self.REPEAT_REPLAY if 'schedule' in payload else []
         else:
+            self.miri_runs = self.miri_stage(self.MIRI_SEEDS.get(tier, [1]), rdir, out)
             n = self.N.get(tier, 20)
             cands = [gen_candidates(rng) for _ in range(n)]
             # pre-pass (own process, uncached): which configurations build?
@@ -313,7 +353,12 @@ class C14:
                     nviol += 1
                     out.violations.append({'property': 'C14', 'what': 'the protocol model predicts other build results than the threads observed',
                                            'schedule': scheds[si], 'model': pred, 'observed': observed})
-        return self.statistics(scheds, concs, seqs, model_agree)
+        st = self.statistics(scheds, concs, seqs, model_agree)
+        st['miri_runs'] = self.miri_runs
+        st['miri_note'] = ('harness_miri under cargo +nightly miri run: 4 threads x 9 actions (cache hits, racing misses, failing builds, '
+                           'shared-scanner scans, partially consumed iterators with set_mode), compared with the sequential run; '
+                           'Miri checks data races and undefined behaviour on the executed schedule of each seed')
+        return st
 
     def statistics(self, scheds, concs, seqs, model_agree):
         acts = {}
